@@ -191,6 +191,12 @@ def gen_client_cases(ctx, thorough):
         cases.append(f'badparam {op} 65535 2 overflow')
     cases.append('states rh 0 0 close')
     cases.append('states rh 0 0 refuse')
+    # ONE list object passed to several write-multiple calls (periodic write of a prepared block; a value added in between)
+    for op in ('wmc', 'wmr'):
+        top = 1968 if op == 'wmc' else 123
+        for n, extra in [(1, '2'), (8, '3'), (9, '2+a'), (top, '2'), (top - 2, '3+a'), (r.randrange(2, 40), r.choice(['2', '3', '2+a', '3+a']))] + (
+                [(r.randrange(1, top - 3), r.choice(['2', '3', '3+a'])) for _ in range(10)] if thorough else []):
+            cases.append(f'reuse {op} {r.choice([2000, 2001, 40000, 65535 - top - 3])} {n} {extra}')
     return cases
 
 
@@ -311,6 +317,26 @@ Definition run_req (x : c_call * N * N * list N) : string :=
       end
   end.'''
 
+REUSE_PRE = '''
+Fixpoint run_reuse_calls (coils : bool) (tx uid : N) (calls : list (N * option (list N))) : list string :=
+  match calls with
+  | [] => []
+  | (s, None) :: rest => "UNKNOWN" :: run_reuse_calls coils tx uid rest
+  | (s, Some v) :: rest =>
+      let cc := if coils then CcWriteMultipleCoils s (Some (map (fun x => negb (N.eqb x 0)) v)) else CcWriteMultipleRegisters s (Some v) in
+      match to_call cc with
+      | Some c =>
+          match build c with
+          | Ok r => (show_call (c_function false cc Accepted [TComplete ROk]) ++ "@" ++ show_bytes (ref_encode_tcp tx uid c)) :: run_reuse_calls coils ((tx + 1) mod 65536) uid rest
+          | _ => (show_call (c_function false cc Accepted []) ++ "@-") :: run_reuse_calls coils tx uid rest
+          end
+      | None => "NOCALL" :: run_reuse_calls coils tx uid rest
+      end
+  end.
+Definition run_reuse (x : bool * N * list N * list (list_step N)) : string :=
+  let '(coils, uid, init, steps) := x in
+  show_list (fun s => s) ";" (run_reuse_calls coils 0 uid (list_calls (if coils then "write_multiple_coils" else "write_multiple_registers") (Some init) steps)).'''
+
 CLIENT_PRE = '''Local Open Scope string_scope.
 Definition show_ev (e : cb_event) : string :=
   match e with OnComplete => "complete" | OnFailure x => "failure:" ++ name_ffi_request_error x | ShapeUnknown => "SHAPE?" end.
@@ -337,6 +363,7 @@ def check_client(ctx, cases):
     classes = {}
     model_cases, model_expect = [], []      # (coq term, impl string to compare, case)
     composed = []                           # req scenarios with the wire bytes, for the composed client model
+    reuse_cases = []                        # one list object, several calls
 
     def fail(key, what, c, i, nfi=False, **kw):
         nonlocal bad
@@ -441,6 +468,35 @@ def check_client(ctx, cases):
                 fail(f'parameter-validation.{extra}.{rq}', f'{c}: C ABI returned {rc} with callback events {ev} and {destroy}; expected {want} and destroy=1', c, i, spec=want)
             model_cases.append(f'("{rq}", {env})')
             model_expect.append((f'{rc}/{ev}', c, i))
+        elif sc == 'reuse':
+            k, add = int(extra.split('+')[0]), '+' in extra
+            n_calls += k
+            classes['list-object-reused' + ('-with-add' if add else '')] = classes.get('list-object-reused' + ('-with-add' if add else ''), 0) + 1
+            unit = unit_of(start, n)
+            want = []
+            for j in range(k):
+                pdu = request_pdu(op, start, n + j if add else n)
+                want.append('Ok/complete@' + bytes([j >> 8, j & 0xFF, 0, 0, (len(pdu) + 1) >> 8, (len(pdu) + 1) & 0xFF, unit] + pdu).hex().upper())
+            calls = ffi.split(';')
+            sent = [] if m.group(3) in (None, '-') else m.group(3).split(',')
+            got, pos = [], 0
+            for cl in calls:
+                if cl.startswith('Ok/') and pos < len(sent):
+                    got.append(cl + '@' + sent[pos])
+                    pos += 1
+                else:
+                    got.append(cl + '@-')
+            got += ['(extra request on the wire)@' + x for x in sent[pos:]]
+            rust_sent = [] if m.group(4) in (None, '-') else m.group(4).split(',')
+            if rust != ';'.join(['OK'] * k) or rust_sent != [w.split('@')[1] for w in want]:
+                fail(f'rust-api-unexpected.{rq}', f'{c}: the Rust API client returned {rust} and sent {rust_sent}; expected {want}', c, i, nfi=True)
+            elif got != want:
+                j = next(x for x in range(max(len(got), len(want))) if x >= len(got) or x >= len(want) or got[x] != want[x])
+                g = got[j] if j < len(got) else '(missing)'
+                fail(f'list-object-changed-by-call.{rq}', f'one {"rodbus_bit_list" if op == "wmc" else "rodbus_register_list"} object holding {n} values passed to {k} successive {rq} calls'
+                     + (' (one value added after each call)' if add else '') + f': call #{j + 1} gave <return code>/<callback>@<request on the wire> = {g[:160]}; '
+                     f'a call must not change the caller\'s list: expected {want[j][:160] if j < len(want) else "(nothing)"}', c, i, spec=';'.join(want))
+            reuse_cases.append((c, op, start, n, k, add, ';'.join(got), i))
         elif sc == 'states':
             classes['states'] = classes.get('states', 0) + 1
             f_seq = ffi.split('/', 1)[1]
@@ -482,6 +538,21 @@ def check_client(ctx, cases):
         elif m_wire != s_wire or m_call != 'Ok/' + strip_values(m_value):
             fail('composed-client-model-inconsistent', f'{c}: model wire {m_wire} spec {s_wire}; call {m_call} value {m_value[:80]}', c, i, nfi=True)
     classes['composed-model-requests'] = n_comp
+    # one list object across calls: Model/FfiClient.list_calls over the regenerated `list_args`
+    terms = []
+    for (c, op, start, n, k, add, got, i) in reuse_cases:
+        steps = []
+        for j in range(k):
+            steps.append(f'LsCall {start}')
+            if add:
+                steps.append(f'LsAdd {int(call_values(op, n + j + 1)[n + j])}')
+        terms.append(f'({vlib.coq_bool(op == "wmc")}, {unit_of(start, n)}, {vlib.coq_N_list([int(v) for v in call_values(op, n)])}, [' + '; '.join(steps) + '])')
+    reuse_model = model_eval(ctx, ['Base.Show', 'Base.Outcome', 'Base.ClientTypes', 'Gen.FfiTables', 'Model.Ffi', 'Model.ClientRequest', 'Model.ClientPaths',
+                                   'Model.Format', 'Spec.ClientCodecSpec', 'Spec.FfiSpec', 'Model.FfiClient'], 'run_reuse', terms,
+                             case_type='bool * N * list N * list (list_step N)', preamble=COMPOSED_PRE + REUSE_PRE, per_shard=40)
+    for (c, op, start, n, k, add, got, i), mo in zip(reuse_cases, reuse_model):
+        if mo is not None and mo != got:
+            fail('list-reuse-model-differs-from-impl', f'{c}: model {mo[:200]}, implementation {got[:200]}', c, i, nfi=True, model=mo)
     ctx.oblige('correspondence:c-abi-client-vs-rust-api-client', bad == 0, f'{bad} disagreements on {len(cases)} scenarios')
     return classes, n_calls, list(zip(cases, impl))
 
